@@ -43,7 +43,8 @@ def run(tier):
     po = common.proof_obligations("GasolVerif.Pipeline,GasolVerif.Proofs.NormSound", THEOREMS)
     violations = [{"kind": "broken-proof-obligation", "what": b, "no_failing_input": True, "input": b} for b in po["broken"]]
     c = Counter()
-    dl = docrun.synthesized(sd + 71, 4 if tier == "quick" else 40, ncontracts=2, nblocks=5)
+    import docs
+    dl = docrun.synthesized(sd + 71, 4 if tier == "quick" else 40, ncontracts=2, nblocks=5) + docs.analysis_failing()
     samples = []
     for opts in (["-greedy"], ["-greedy", "-storage", "-push0"]) if tier == "quick" else (["-greedy"], ["-greedy", "-storage"], ["-greedy", "-push0"], ["-greedy", "-size", "-partition"]):
         first = docrun.run_docs(dl, opts + ["-log"])
